@@ -688,11 +688,12 @@ def atomic_write_file(filename: Filename, data):
     except FileNotFoundError:
         st = None # file didn't exist before
     if st is not None:
-        os.chmod(str(temp_filename), st.st_mode)
         try:
             os.chown(str(temp_filename), -1, st.st_gid)
         except OSError:
             pass # not member of group
+        # chmod last: chown clears the set-user-ID / set-group-ID bits
+        os.chmod(str(temp_filename), st.st_mode)
     os.rename(str(temp_filename), str(filename))
 
 
